@@ -53,8 +53,8 @@ def gen_string(r) -> str:
 VOCAB_COMMON = ["--", "-", "-x", "--foo=bar", "A=1", "ls", "rm", "x y", "", "{}", ";", "+", "5", "file", "it's", "#", "FOO=1", "-h", "--help"]
 VOCAB = {
     "shell": ["-c", "-lc", "-cl", "-xec", "--norc", "-o", "pipefail", "ls -la", "rm x", "--c", "-e", "script.sh", "+c"],
-    "env": ["-S", "-Sls", "-S ls", "--split-string=ls -la", "--split-string", "--split-string=", "-i", "-u", "--unset", "--unset=X", "-C", "--chdir", "/tmp", "-iS", "-v", "  "],
-    "xargs": ["-n", "-n1", "-I", "-I{}", "-0", "-r", "-t", "--max-args=1", "-P", "-d", "-E", "-e", "-l", "-L", "-a", "-p", "-o", "--interactive", "--open-tty", "--interactive=x", "-ap", "-s", "--eof", "--replace", "-i"],
+    "env": ["-S", "-Sls", "-S ls", "--split-string=ls -la", "--split-string", "--split-string=", "-i", "-u", "--unset", "--unset=X", "-C", "--chdir", "/tmp", "-iS", "-v", "  ", "-vu", "-vuX", "-iu", "-vvu", "-iC", "-iC/tmp", "-vS", "-vSls -la", "-uS", "-uCC", "-0", "-i0", "-Su", "-x", "-xu", "-ixuX", "--unset", "X", "-CS", "-"],
+    "xargs": ["-n", "-n1", "-I", "-I{}", "-0", "-r", "-t", "--max-args=1", "-P", "-d", "-E", "-e", "-l", "-L", "-a", "-p", "-o", "--interactive", "--open-tty", "--interactive=x", "-ap", "-s", "--eof", "--replace", "-i", "-rn", "-rn1", "-rt", "-rp", "-to", "-tp", "-rts", "4096", "-rE", "EOF", "-rEx", "-tI{}", "-Ipo", "-np", "-pn", "-r0", "-0n1", "-xrn", "--", "-x"],
     "find": [".", "-name", "*.py", "-exec", "-execdir", "-ok", "-okdir", "-delete", "-print", "-o", "-type", "f"],
     "fd": ["-x", "--exec", "-X", "--exec-batch", "-e", "py", "pattern", "-H"],
     "arch": ["-32", "-64", "-c", "-h", "-arch", "--arch", "-d", "-e", "-arm64", "-x86_64", "arm64", "VAR=1", "-foo"],
@@ -210,6 +210,53 @@ def forms(r, c):
         ("find -exec sh -c", "find . -maxdepth 0 -exec sh -c " + sq(cs) + " \\;"), ("xargs sh -c", "echo a | xargs sh -c " + sq(cs)), ("env bash -c", "env A=1 bash -c " + sq(cs)),
     ]
     for lab, t in other:
+        yield lab, t, False, True, None
+    # option prefixes drawn from the tools' own grammars (GNU env / xargs / timeout / nice as installed here): clusters,
+    # attached and separate option values, values that end in letters which are themselves option letters
+    names = ["X", "CC", "RUSTC", "LC_NUMERIC", "FOOu", "aS", "CFLAGS", "u", "C", "S", "vu", "iC"]
+
+    def env_opts():
+        out = []
+        for _ in range(r.randint(1, 3)):
+            k = r.randrange(7)
+            if k == 0:
+                out.append("-v")
+            elif k == 1:
+                out.append("-u" + r.pick(names))
+            elif k == 2:
+                out += ["-u", r.pick(names)]
+            elif k == 3:
+                out.append("-" + r.pick(["v", "vv"]) + "u" + r.pick(names))
+            elif k == 4:
+                out += ["-" + r.pick(["v", "vv"]) + "u", r.pick(names)]
+            elif k == 5:
+                out.append("--unset=" + r.pick(names))
+            else:
+                out.append(r.pick(["-C.", "-C/tmp", "--chdir=.", "-vC."]) if r.chance(0.7) else "A" + r.pick(names) + "=1")
+        return " ".join(out)
+
+    def xargs_opts():
+        out = []
+        for _ in range(r.randint(1, 3)):
+            v = r.pick([("n", "1"), ("L", "1"), ("P", "2"), ("s", "4096"), ("E", "EOF"), ("E", "En"), ("d", "x"), ("I", "R")])
+            cl = r.pick(["", "r", "t", "rt"])
+            if v[0] == "I":
+                continue
+            out += ["-" + cl + v[0] + v[1]] if r.chance(0.5) else ["-" + cl + v[0], v[1]]
+        return " ".join(out) or "-r"
+
+    def timeout_opts():
+        out = []
+        for _ in range(r.randint(0, 2)):
+            out += r.pick([["-k", "3"], ["-k3"], ["--kill-after=3"], ["-s", "KILL"], ["-sKILL"], ["--signal=TERM"], ["-v"], ["--foreground"], ["--preserve-status"], ["-vk", "3"], ["-vsINT"]])
+        return " ".join(out + [r.pick(["5", "0.5", "5s", "1m", "1.5s"])])
+
+    def nice_opts():
+        return r.pick(["-n 5", "-n5", "-5", "--adjustment=5", "-n -5", "-19", "--adjustment 3", "-n 0"])
+
+    for lab, t in [("env OPTS(grammar)", "env " + env_opts() + " " + cs), ("xargs OPTS(grammar)", "echo a | xargs " + xargs_opts() + " " + cs),
+                   ("timeout OPTS(grammar)", "timeout " + timeout_opts() + " " + cs), ("nice OPTS(grammar)", "nice " + nice_opts() + " " + cs),
+                   ("env OPTS nice OPTS", "env " + env_opts() + " nice " + nice_opts() + " " + cs)]:
         yield lab, t, False, True, None
     # words after the -c string are $0, $1 … of the inner command, whatever they look like
     cl = lambda: "-" + "".join(r.pick(LETTERS) for _ in range(r.randint(1, 3)))  # noqa: E731
